@@ -300,6 +300,10 @@ DOMAttr * DOMElementImpl::setAttributeNode(DOMAttr *newAttr)
     // This will throw INUSE if necessary
     DOMAttr *oldAttr = (DOMAttr *) fAttributes->setNamedItem(newAttr);
 
+    // the attribute that was replaced is no longer in the document: it must not be found by getElementById
+    if (oldAttr && oldAttr != newAttr)
+        ((DOMAttrImpl *)oldAttr)->removeAttrFromIDNodeMap();
+
     return oldAttr;
 }
 
@@ -383,6 +387,10 @@ DOMAttr *DOMElementImpl::setAttributeNodeNS(DOMAttr *newAttr)
 
     // This will throw INUSE if necessary
     DOMAttr *oldAttr = (DOMAttr *) fAttributes->setNamedItemNS(newAttr);
+
+    // the attribute that was replaced is no longer in the document: it must not be found by getElementById
+    if (oldAttr && oldAttr != newAttr)
+        ((DOMAttrImpl *)oldAttr)->removeAttrFromIDNodeMap();
 
     return oldAttr;
 }
